@@ -8,7 +8,10 @@ def run(tier, seed):
     wd = vlib.workdir("C06")
     vlib.build_harness()
     d = 4 if tier == "quick" else 5
-    _, rep_b, nb = enginecommon.histories(v, wd, "blocker", d)
+    _, rep_b, nb = enginecommon.histories(v, wd, "blocker", 4)
+    if tier == "thorough":
+        # one operation deeper with three of the addable rules (the full set of addable rules at depth 5 is out of reach)
+        enginecommon.histories(v, wd, "blocker", 5, ops="all5")
     _, rep_e, ne = enginecommon.histories(v, wd, "engine", d)
     _, rep_n, nn = enginecommon.histories(v, wd, "engine", d, initset="notagblock")
     # deeper histories over tag assignment / discard / query only: free-then-reallocate sequences
